@@ -6,7 +6,7 @@ from . import run as e2run
 
 class Lemma:
     def __init__(self, name, entry, files, opts=None, splits=None, desc="", bound="", known=(), scale=None, stopfn=None,
-                 stop=None, tags=None, intr=None, expect_reach=(), split_depth=0):
+                 stop=None, tags=None, intr=None, expect_reach=(), split_depth=0, replay_patches=()):
         self.name = name
         self.entry = entry
         self.files = files            # harness file names (under /verif/harness)
@@ -21,6 +21,7 @@ class Lemma:
         self.tags = tags
         self.intr = intr
         self.expect_reach = expect_reach
+        self.replay_patches = replay_patches
         self.split_depth = split_depth   # parallelise by the first k verifChoice calls
 
 
@@ -141,24 +142,35 @@ def finish_lemma(ctx, l, rs, files, known_active, prog):
     if not errs and (not reach or missing) and not viols:
         ctx.report_inconclusive("%s: vacuous (no reachability witness hit%s)" % (l.name, ": missing " + ",".join(missing) if missing else ""))
         verdict = "vacuous"
-    seen = set()
+    # replay: one reproduced witness per distinct (kind, message, site) is enough; a signature none of whose
+    # witnesses (up to 4 tried) reproduces is an engine problem and is reported as inconclusive
+    by_sig = {}
     for v in viols:
-        sig = (v["kind"], v["msg"], v["pos"])
-        ok, line = e2run.replay(files, v, known=sorted(known_active))
-        ctx.replays += 1
-        if not ok:
+        by_sig.setdefault((v["kind"], v["msg"], v["pos"]), []).append(v)
+    for sig, vs in by_sig.items():
+        reproduced = None
+        last = None
+        for v in vs[:4]:
+            ok, line = e2run.replay(files, v, known=sorted(known_active), patches=l.replay_patches, scaled_files=getattr(prog, 'scaled_files', None))
+            ctx.replays += 1
+            last = (v, line)
+            if ok:
+                reproduced = (v, line)
+                break
+        if reproduced is None:
+            v, line = last
             ctx.report_inconclusive("%s: counterexample did not reproduce natively (%s) for %s %s at %s vec=%s" % (
                 l.name, line, v["kind"], v["msg"], v["pos"], [x for _, x in v["replay"]]))
-            verdict = "error"
+            if verdict != "sat":
+                verdict = "error"
             continue
+        v, line = reproduced
         verdict = "sat"
-        if sig in seen:
-            continue
-        seen.add(sig)
         ctx.sample({"lemma": l.name, "counterexample": v["replay"], "kind": v["kind"], "msg": v["msg"], "pos": v["pos"], "native": line})
         ctx.report_violation("%s: %s: %s (at %s); native replay: %s" % (l.name, v["kind"], v["msg"], v["pos"], line),
                              {"lemma": l.name, "entry": v["entry"], "files": [os.path.basename(f) for f in files],
-                              "vec": [x for _, x in v["replay"]], "names": [n for n, _ in v["replay"]], "kind": v["kind"], "msg": v["msg"]})
+                              "vec": [x for _, x in v["replay"]], "names": [n for n, _ in v["replay"]], "kind": v["kind"], "msg": v["msg"],
+                              "paths_with_this_violation": len(vs)})
     ctx.bounds[l.name] = l.bound
     ctx.add_lemma(l.name, verdict, paths=paths, queries=queries, solver_s=round(solver_s, 2), bound=l.bound, desc=l.desc,
                   jobs=len(rs), wall_s=round(max([r.wall_s for r in rs] or [0]), 2), obligation_sites=sum(r.sites for r in rs))
